@@ -388,7 +388,7 @@ BYTES = [b'x = 1\n', b'# c\nx = "\xc3\xa9"\n', b'def f():\n  pass\n', b'',
 
 def pipe_bytes(k: int, bom: bool, b1: int, at: int) -> bool:
     """
-    require: 0 <= k < len(BYTES) and 0 <= b1 < 128 and 0 <= at <= 3
+    require: 0 <= k < len(BYTES) and 0 <= b1 < 128 and 0 <= at <= 30
     """
     body = BYTES[k]
     at = min(at, len(body))
